@@ -4,7 +4,7 @@ from vcore import hexs
 
 ID = "C06"
 LEVEL = "proof"
-_T = ["sc_is_canonical_iff", "ge_is_canonical_iff", "high_bits_imply_canonical_test", "verify_decision", "open_forms", "completeness_abstract"]
+_T = ["sc_is_canonical_iff", "ge_is_canonical_iff", "high_bits_imply_canonical_test", "verify_decision", "open_forms", "completeness_abstract", "order8_difference_rejected", "order8_difference_rfc_valid", "order4_difference_accepted"]
 THEOREMS = vcore.theorems_in("SodiumModel/Properties/C06.lean", _T, "Sodium.C06")
 IMPORTS = ["SodiumModel.Properties.C06"] if THEOREMS else ["SodiumModel.Spec.Ed25519"]
 RULE = ("all message lengths 0..300: seeded key pair, detached / combined / multi-part (pre-hashed) signing, verification in every form (the harness requires detached verify and "
